@@ -479,7 +479,8 @@ def run(tier):
                 if mu is None and n == 0:
                     chk.count('not_reproduced_on_rerun(flaky)')
                     chk.inconclusive += 1
-                    log("[C15] not reproduced on re-run:", p.pkey, e['kind'], e['detail'], '->', e2['verdict'], e2.get('kind'), e2.get('detail'))
+                    log("[C15] not reproduced on re-run:", p.pkey, e['kind'], e['detail'], '->', e2['verdict'], e2.get('kind'), e2.get('detail'),
+                        '|', ((e.get('g') or {}).get('text') or (e.get('m') or {}).get('text') or '')[:500].replace('\n', ' / '))
                     continue
                 if u is None:
                     sig = {'kind': e['kind'], 'construct': 'interaction of units ' + '+'.join(sorted(x.kind for x in p.units)), 'features': '', 'detail': e['detail']}
